@@ -1,4 +1,5 @@
 import PeliteModel.Spec.Pe
+import PeliteModel.Spec.PeFormat
 /-! Helper lemmas for C07 (property theorems live in Thm/C07.lean): `validate` as an if-chain,
 `fromBytes` / `wrapFromBytes` in terms of `Accept`, header refs, section table, lookups. -/
 namespace Pelite.Pe
@@ -130,5 +131,173 @@ theorem byName_eq_findIdx (secs : List Sec) (lo hi : Nat) :
   | cons s rest ih =>
     simp only [byName, List.findIdx?_cons, ih]
     split <;> simp_all
+
+/-! ### `by_name` on the query bytes -/
+
+theorem nameBuf_aux (n : Bytes) : ∀ k, k ≤ 8 →
+    ((List.range k).foldl (fun buf i => buf.setIfInBounds i (n.getD i 0)) (Array.replicate 8 (0:UInt8))).size = 8 ∧
+    ∀ j, ((List.range k).foldl (fun buf i => buf.setIfInBounds i (n.getD i 0)) (Array.replicate 8 (0:UInt8))).getD j 0 =
+      if j < k then n.getD j 0 else 0 := by
+  intro k
+  induction k with
+  | zero =>
+    intro _
+    refine ⟨by simp, fun j => ?_⟩
+    simp [Array.getD_eq_getD_getElem?, Array.getElem?_replicate]
+    split <;> rfl
+  | succ k ih =>
+    intro hk
+    obtain ⟨h1, h2⟩ := ih (by omega)
+    rw [List.range_succ, List.foldl_append, List.foldl_cons, List.foldl_nil]
+    refine ⟨by rw [Array.size_setIfInBounds]; exact h1, fun j => ?_⟩
+    rw [Array.getD_eq_getD_getElem?, Array.getElem?_setIfInBounds]
+    by_cases hj : k = j
+    · subst hj
+      rw [if_pos rfl, if_pos (by omega), if_pos (by omega)]
+      rfl
+    · rw [if_neg hj, ← Array.getD_eq_getD_getElem?, h2 j]
+      by_cases hjk : j < k
+      · rw [if_pos hjk, if_pos (by omega)]
+      · rw [if_neg hjk, if_neg (by omega)]
+
+theorem byteAt_nameBuf (n : Bytes) (h : n.size ≤ 8) (j : Nat) :
+    byteAt (nameBuf n) j = if j < n.size then byteAt n j else 0 := by
+  unfold byteAt nameBuf
+  rw [(nameBuf_aux n n.size h).2 j]
+  split <;> rfl
+
+
+theorem forall_lt_8 (P : Nat → Prop) :
+    (∀ j, j < 8 → P j) ↔ P 0 ∧ P 1 ∧ P 2 ∧ P 3 ∧ P 4 ∧ P 5 ∧ P 6 ∧ P 7 := by
+  constructor
+  · intro h
+    exact ⟨h 0 (by omega), h 1 (by omega), h 2 (by omega), h 3 (by omega), h 4 (by omega), h 5 (by omega),
+      h 6 (by omega), h 7 (by omega)⟩
+  · rintro ⟨h0, h1, h2, h3, h4, h5, h6, h7⟩ j hj
+    have : j = 0 ∨ j = 1 ∨ j = 2 ∨ j = 3 ∨ j = 4 ∨ j = 5 ∨ j = 6 ∨ j = 7 := by omega
+    rcases this with rfl | rfl | rfl | rfl | rfl | rfl | rfl | rfl <;> assumption
+
+theorem findIdx?_congr' {α} (l : List α) (p q : α → Bool) (h : ∀ a ∈ l, p a = q a) :
+    l.findIdx? p = l.findIdx? q := by
+  induction l with
+  | nil => rfl
+  | cons a rest ih =>
+    rw [List.findIdx?_cons, List.findIdx?_cons, h a List.mem_cons_self,
+      ih (fun b hb => h b (List.mem_cons_of_mem _ hb))]
+
+/-- a `u32` equals the little-endian value of four bytes iff its four bytes are those -/
+theorem le32_eq_iff_bytes (x : Nat) (hx : x < 4294967296) (b : Bytes) (o : Nat) :
+    x = le32 b o ↔ x % 256 = byteAt b o ∧ x / 256 % 256 = byteAt b (o + 1) ∧
+      x / 65536 % 256 = byteAt b (o + 2) ∧ x / 16777216 % 256 = byteAt b (o + 3) := by
+  have := byteAt_lt b o; have := byteAt_lt b (o+1); have := byteAt_lt b (o+2); have := byteAt_lt b (o+3)
+  unfold le32
+  omega
+
+theorem name_match_iff (s : Sec) (hlo : s.nameLo < 4294967296) (hhi : s.nameHi < 4294967296)
+    (n : Bytes) (hn : n.size ≤ 8) :
+    (s.nameLo = le32 (nameBuf n) 0 ∧ s.nameHi = le32 (nameBuf n) 4) ↔
+      ∀ j, j < 8 → s.nameByte j = paddedName n j := by
+  rw [forall_lt_8, le32_eq_iff_bytes _ hlo, le32_eq_iff_bytes _ hhi]
+  simp only [Sec.nameByte, paddedName, byteAt_nameBuf n hn, Nat.zero_add, and_assoc]
+
+theorem byNameBytes_eq (secs : List Sec) (hs : ∀ s ∈ secs, s.nameLo < 4294967296 ∧ s.nameHi < 4294967296)
+    (n : Bytes) :
+    byNameBytes secs n =
+      if n.size > 8 then none
+      else secs.findIdx? (fun s : Sec => decide (∀ j : Nat, j < 8 → s.nameByte j = paddedName n j)) := by
+  unfold byNameBytes
+  by_cases hn : n.size > 8
+  · rw [if_pos hn, if_pos hn]
+  · rw [if_neg hn, if_neg hn]
+    dsimp only
+    rw [byName_eq_findIdx]
+    apply findIdx?_congr'
+    intro s hm
+    obtain ⟨h1, h2⟩ := hs s hm
+    have := name_match_iff s h1 h2 n (by omega)
+    simp only [this]
+
+theorem sections_name_lt (b : Bytes) : ∀ s ∈ sections b, s.nameLo < 4294967296 ∧ s.nameHi < 4294967296 := by
+  intro s hs
+  simp only [sections, List.mem_map] at hs
+  obtain ⟨i, -, rfl⟩ := hs
+  exact ⟨le32_lt _ _, le32_lt _ _⟩
+
+theorem le32_bytes (b : Bytes) (o : Nat) :
+    le32 b o % 256 = byteAt b o ∧ le32 b o / 256 % 256 = byteAt b (o + 1) ∧
+    le32 b o / 65536 % 256 = byteAt b (o + 2) ∧ le32 b o / 16777216 % 256 = byteAt b (o + 3) := by
+  have := byteAt_lt b o; have := byteAt_lt b (o+1); have := byteAt_lt b (o+2); have := byteAt_lt b (o+3)
+  unfold le32
+  omega
+
+theorem secAt_nameByte (b : Bytes) (o j : Nat) (hj : j < 8) : (secAt b o).nameByte j = byteAt b (o + j) := by
+  have : j = 0 ∨ j = 1 ∨ j = 2 ∨ j = 3 ∨ j = 4 ∨ j = 5 ∨ j = 6 ∨ j = 7 := by omega
+  obtain ⟨a0, a1, a2, a3⟩ := le32_bytes b o
+  obtain ⟨c0, c1, c2, c3⟩ := le32_bytes b (o + 4)
+  rcases this with rfl | rfl | rfl | rfl | rfl | rfl | rfl | rfl
+  · exact a0
+  · exact a1
+  · exact a2
+  · exact a3
+  · exact c0
+  · exact c1
+  · exact c2
+  · exact c3
+
+/-! ### two small hand-built images (non-vacuity witnesses of `Accept`, used by C06 and C07) -/
+
+/-- A 288-byte PE32 file: e_lfanew = 64, two data directory entries, two sections, SizeOfHeaders = 280,
+SizeOfImage = 296.  Section ".a" is stored and mapped at the same place (280, 4 bytes); section
+".bss" has 4 stored bytes at file offset 284 mapped at 288 and 4 more virtual-only bytes. -/
+def twoSecPe32 : Bytes := #[
+    -- 0: "MZ" … e_lfanew = 64
+    77, 90, 0, 0, 0, 0, 0, 0, 0, 0, 0, 0, 0, 0, 0, 0, 0, 0, 0, 0, 0, 0, 0, 0, 0, 0, 0, 0, 0, 0, 0, 0, 0, 0,
+    0, 0, 0, 0, 0, 0, 0, 0, 0, 0, 0, 0, 0, 0, 0, 0, 0, 0, 0, 0, 0, 0, 0, 0, 0, 0, 64, 0, 0, 0,
+    -- 64: "PE\0\0"
+    80, 69, 0, 0,
+    -- 68: file header: NumberOfSections = 2, SizeOfOptionalHeader = 112
+    0, 0, 2, 0, 0, 0, 0, 0, 0, 0, 0, 0, 0, 0, 0, 0, 112, 0, 0, 0,
+    -- 88: optional header: Magic = 0x10b, ImageBase = 0x400000
+    11, 1, 0, 0, 0, 0, 0, 0, 0, 0, 0, 0, 0, 0, 0, 0, 0, 0, 0, 0, 0, 0, 0, 0, 0, 0, 0, 0, 0, 0, 64, 0, 0, 0,
+    0, 0, 0, 0, 0, 0, 0, 0, 0, 0, 0, 0, 0, 0, 0, 0, 0, 0, 0, 0, 0, 0,
+    -- 144: SizeOfImage = 296, SizeOfHeaders = 280, CheckSum = 0 … NumberOfRvaAndSizes = 2
+    40, 1, 0, 0, 24, 1, 0, 0, 0, 0, 0, 0, 0, 0, 0, 0, 0, 0, 0, 0, 0, 0, 0, 0, 0, 0, 0, 0, 0, 0, 0, 0, 0, 0,
+    0, 0, 2, 0, 0, 0,
+    -- 184: data directory: (288, 4), (0, 0)
+    32, 1, 0, 0, 4, 0, 0, 0, 0, 0, 0, 0, 0, 0, 0, 0,
+    -- 200: ".a": VirtualSize 4, VirtualAddress 280, SizeOfRawData 4, PointerToRawData 280
+    46, 97, 0, 0, 0, 0, 0, 0, 4, 0, 0, 0, 24, 1, 0, 0, 4, 0, 0, 0, 24, 1, 0, 0, 0, 0, 0, 0, 0, 0, 0, 0, 0, 0,
+    0, 0, 0, 0, 0, 0,
+    -- 240: ".bss": VirtualSize 8, VirtualAddress 288, SizeOfRawData 4, PointerToRawData 284
+    46, 98, 115, 115, 0, 0, 0, 0, 8, 0, 0, 0, 32, 1, 0, 0, 4, 0, 0, 0, 28, 1, 0, 0, 0, 0, 0, 0, 0, 0, 0, 0,
+    0, 0, 0, 0, 0, 0, 0, 0,
+    -- 280: raw data of ".a": "ab\0", 1
+    97, 98, 0, 1,
+    -- 284: raw data of ".bss": the u16 table 5, 0xffff (mapped at 288; 292..296 is zero fill)
+    5, 0, 255, 255]
+
+/-- A 252-byte PE32+ file: e_lfanew = 64, one data directory entry, one section (4 stored bytes at 248,
+VirtualSize 8), SizeOfHeaders = 248, SizeOfImage = 256. -/
+def onePe64 : Bytes := #[
+    -- 0: "MZ" … e_lfanew = 64
+    77, 90, 0, 0, 0, 0, 0, 0, 0, 0, 0, 0, 0, 0, 0, 0, 0, 0, 0, 0, 0, 0, 0, 0, 0, 0, 0, 0, 0, 0, 0, 0, 0, 0,
+    0, 0, 0, 0, 0, 0, 0, 0, 0, 0, 0, 0, 0, 0, 0, 0, 0, 0, 0, 0, 0, 0, 0, 0, 0, 0, 64, 0, 0, 0,
+    -- 64: "PE\0\0"
+    80, 69, 0, 0,
+    -- 68: file header: Machine = 0x8664, NumberOfSections = 1, SizeOfOptionalHeader = 120
+    100, 134, 1, 0, 0, 0, 0, 0, 0, 0, 0, 0, 0, 0, 0, 0, 120, 0, 0, 0,
+    -- 88: optional header: Magic = 0x20b, ImageBase = 0x1_4000_0000 (u64 at +24)
+    11, 2, 0, 0, 0, 0, 0, 0, 0, 0, 0, 0, 0, 0, 0, 0, 0, 0, 0, 0, 0, 0, 0, 0, 0, 0, 0, 64, 1, 0, 0, 0, 0, 0,
+    0, 0, 0, 0, 0, 0, 0, 0, 0, 0, 0, 0, 0, 0, 0, 0, 0, 0, 0, 0, 0, 0,
+    -- 144: SizeOfImage = 256, SizeOfHeaders = 248 … NumberOfRvaAndSizes = 1 (at +108)
+    0, 1, 0, 0, 248, 0, 0, 0, 0, 0, 0, 0, 0, 0, 0, 0, 0, 0, 0, 0, 0, 0, 0, 0, 0, 0, 0, 0, 0, 0, 0, 0, 0, 0,
+    0, 0, 0, 0, 0, 0, 0, 0, 0, 0, 0, 0, 0, 0, 0, 0, 0, 0, 1, 0, 0, 0,
+    -- 200: data directory: (248, 4)
+    248, 0, 0, 0, 4, 0, 0, 0,
+    -- 208: ".t": VirtualSize 8, VirtualAddress 248, SizeOfRawData 4, PointerToRawData 248
+    46, 116, 0, 0, 0, 0, 0, 0, 8, 0, 0, 0, 248, 0, 0, 0, 4, 0, 0, 0, 248, 0, 0, 0, 0, 0, 0, 0, 0, 0, 0, 0, 0,
+    0, 0, 0, 0, 0, 0, 0,
+    -- 248: raw data
+    1, 2, 3, 4]
 
 end Pelite.Pe
